@@ -11,7 +11,7 @@ from vlib import cnat, clist
 
 ID = "C18"
 GO_PKG = "./lib/syncx"
-PRIMS = ["sf", "lc", "lim", "ref", "once", "spin", "done", "pool", "rm", "tl", "bar", "mr", "ir", "spinx", "donex"]
+PRIMS = ["sf", "lc", "lim", "ref", "once", "spin", "done", "pool", "rm", "tl", "bar", "mr", "ir", "spinx", "donex", "oncex"]
 PRIM_NO = {p: i for i, p in enumerate(PRIMS)}
 
 _SK = [
@@ -57,7 +57,7 @@ QUICK_N = 330
 THOROUGH_N = 1650
 SEARCH_N = 220
 SHARD = 42
-DRIVER_TIMEOUT = 300
+DRIVER_TIMEOUT = 600
 RULE = ("per primitive (SingleFlight, LockedCalls, Limit, RefResource, OnceGuard, SpinLock, DoneChan, Pool, "
         "ResourceManager, TimeoutLimit, Barrier; round robin) 2-6 goroutines with scripted calls (keys 1-3, fn callbacks "
         "blocking on gates) under a forced schedule of 10-40 steps (start a call / open a gate / advance the virtual "
@@ -127,7 +127,10 @@ def _gen_flight(rng, prim, tier):
             val = 100 * (t + 1) + i + 1
             if prim in ("sf", "lc") and rng.random() < 0.18:
                 val = 0                       # the user fn panics (after its gate)
-            if prim == "rm":
+            if prim == "rm" and gate and rng.random() < 0.4:
+                # held up just before entering the manager's single flight (the gate is NOT inside create)
+                scripts[t].append(_op(2, key, gate, rng.choice(cchoices)))
+            elif prim == "rm":
                 scripts[t].append(_op(0, key, gate, rng.choice(cchoices)))   # 1: create fails, 2: create panics, 3: the resource's Close() fails
             else:
                 scripts[t].append(_op(rng.choice([0, 0, 1]) if prim == "sf" else 0, key, gate, val))
@@ -305,6 +308,10 @@ def _gen_pool(rng, tier):
             continue
         t = rng.randrange(g)
         if t == blocked or len(scripts[t]) >= 9:
+            continue
+        if rng.random() < 0.12:
+            scripts[t].append(_op(2))       # a stray Put(nil): must change nothing (no slot is given back)
+            sched.append(_t(t))
             continue
         code = 1 if (held[t] and rng.random() < 0.5) else 0
         if code == 0 and blocked is not None and not idle and created >= n:
@@ -624,6 +631,17 @@ def _directed():
     # and the Borrow stays blocked (before the fix they paired up: 1 outstanding borrow on a limit of 0)
     out.append({"prim": "lim", "n": 0, "m": 0, "scripts": [[_op(0), _op(2)], [_op(2), _op(1), _op(2)]],
                 "sched": [_t(0), _t(1), _t(1), _t(1), _t(0)]})
+    # ResourceManager, a NEW key: B is held up just before it enters the single flight; A's whole flight (lookup,
+    # create, register) completes; then B enters: create must run once, both get the same resource, Close closes it once
+    out.append({"prim": "rm", "n": 0, "m": 0,
+                "scripts": [[_op(0, 1, 0, 0)], [_op(2, 1, 1, 0)], [_op(2, 1, 2, 0), _op(0, 2, 0, 0)], [_op(1)]],
+                "sched": [_t(1), _t(2), _t(0), g1, {"k": "o", "v": 2}, _t(2), _t(3)]})
+    # Pool filled to its limit, a stray Put(nil): the next Get must still wait for a real Put
+    for lim in (1, 2):
+        scr = [[_op(0), _op(2), _op(1)]] + [[_op(0)] for _ in range(lim - 1)] + [[_op(2), _op(0), _op(2)]]
+        w = lim
+        out.append({"prim": "pool", "n": lim, "m": 0, "scripts": scr,
+                    "sched": [_t(i) for i in range(lim)] + [_t(0), _t(w), _t(w), _t(0), _t(w)]})
     # TimeoutLimit, "wait for ever" (math.MaxInt64) and 100 years: woken by a Return, the Borrow takes the slot
     for b in (1, 3):
         out.append({"prim": "tl", "n": 1, "m": 0, "scripts": [[_op(1), _op(3), _op(2)], [_op(0, 4900, b), _op(2)]],
@@ -676,13 +694,15 @@ def _stress(rng, tier):
     for prim in ("spinx", "donex"):
         for g in ([2, rng.randint(3, 8)] if tier != "thorough" else [2, 3, 4, 6, 8, rng.randint(9, 16)]):
             out.append({"prim": prim, "n": g, "m": ms, "scripts": [], "sched": []})
+    # OnceGuard: 2^n + 2 Takes, exactly one true.  n = 32 (wrap of a uint32 call counter, ~40 s) only in the thorough tier
+    out.append({"prim": "oncex", "n": 32 if tier == "thorough" else 20, "m": 0, "scripts": [], "sched": []})
     return out
 
 
 def generate(rng, tier, n):
     cases = (list(_directed()) if tier != "search" else []) + _stress(rng, tier)
     i = 0
-    rr = [p_ for p_ in PRIMS if p_ not in ("spinx", "donex")]
+    rr = [p_ for p_ in PRIMS if p_ not in ("spinx", "donex", "oncex")]
     while len(cases) < n:
         prim = rr[i % len(rr)]
         i += 1
@@ -782,7 +802,7 @@ def _overlap(obs):
 
 
 def nontrivial(case, obs):
-    if case["prim"] in ("spinx", "donex"):
+    if case["prim"] in ("spinx", "donex", "oncex"):
         return True
     return _overlap(obs)
 
@@ -828,7 +848,7 @@ def bucket(case, obs):
         out.append("mr:regenerated")
     if case["prim"] == "tl" and any(o.get("b") for sc in case["scripts"] for o in sc if o["code"] == 0):
         out.append("tl:boundary-timeout")
-    if case["prim"] in ("spinx", "donex"):
+    if case["prim"] in ("spinx", "donex", "oncex"):
         out.append("stress")
     if case.get("spec_only"):
         out.append("history-only")
